@@ -59,6 +59,11 @@ func MsgClose(phase string) []byte {
 	return append([]byte{3}, fmt.Sprintf(`{"connectionClose":[{"phase":%q}]}`, phase)...)
 }
 
+// MsgCloseFull: close message with maxTime and reason members.
+func MsgCloseFull(phase string, maxTime uint64, reason string) []byte {
+	return append([]byte{3}, fmt.Sprintf(`{"connectionClose":[{"phase":%q},{"maxTime":%d},{"reason":%q}]}`, phase, maxTime, reason)...)
+}
+
 // MsgData wraps a SPINE payload (plain JSON) into a SHIP data frame.
 func MsgData(payload []byte) []byte {
 	wire, err := ship.JsonIntoEEBUSJson(payload)
@@ -106,7 +111,12 @@ func genWellFormed(t *rapid.T) []byte {
 		id := rapid.SampledFrom([]string{`"client-id"`, `"server-id"`, `"other"`, `""`, ``, `null`, `17`, `[{"x":1}]`, `true`}).Draw(t, "amid")
 		return MsgAccessMethods(id)
 	case 10:
-		return MsgClose(rapid.SampledFrom([]string{"announce", "confirm", "junk", ""}).Draw(t, "closePhase"))
+		phase := rapid.SampledFrom([]string{"announce", "confirm", "junk", ""}).Draw(t, "closePhase")
+		if rapid.Bool().Draw(t, "closeFull") {
+			return MsgCloseFull(phase, rapid.SampledFrom([]uint64{0, 1, 499, 500, 501, 60000, 4294967295, 1 << 40}).Draw(t, "maxTime"),
+				rapid.SampledFrom([]string{"unspecific", "removedConnection", "", "datagram"}).Draw(t, "closeReason"))
+		}
+		return MsgClose(phase)
 	default:
 		return MsgData(SpinePayload(rapid.IntRange(0, 1).Draw(t, "dside"), 1000+rapid.IntRange(0, 50).Draw(t, "dn")))
 	}
